@@ -46,8 +46,10 @@ class Obj(V):
 
 def record(wp, what, **kw):
     """calls with an effect on the abstract state are recorded in program order (straight-line code only)"""
-    if wp.guard != 'true':
+    if wp.guard != 'true' and not getattr(wp, 'guarded_effects', False):
         raise Unsupported(f'{wp.name}: effect {what} under a path condition')
+    if getattr(wp, 'guarded_effects', False):
+        kw = dict(kw, guard=wp.guard)
     wp.rec.append((what, kw))
 
 
@@ -80,6 +82,16 @@ def obj_decl_hook(wp, v, init):
             wp.env[f'{v["name"]}.{i}'] = wp.env[f'{val.t}.{i}']
         record(wp, 'snapshot', name=v['name'], of=val.t)
         return True
+    if isinstance(val, Obj) and val.kind == 'splits':        # the splitter's result: a vector of (train, valid) pairs of unknown size
+        wp.env[f'{v["name"]}.size'] = wp.fresh('Int', 'splits_size', 'unsigned long')
+        wp.assume(f'(and (<= 0 {wp.env[v["name"] + ".size"].t}) (<= {wp.env[v["name"] + ".size"].t} {BOUND}))')
+    if isinstance(val, Obj) and val.kind == 'result_new':    # result_t{spaces, folds}: postcondition of the constructor (CBMC target result_ctor)
+        nm = v['name']
+        for k, t in enumerate(('0', val['folds'], '2', '2', '12')):
+            wp.env[f'{nm}.m_values.{k}'] = V(t, 'Int', 'long')
+        wp.env[f'{nm}.m_values'] = V(f'{nm}.m_values', 'Array', 5)
+        for vec in ('m_extras', 'm_log_paths'):
+            wp.env[f'{nm}.{vec}.size'] = V('0', 'Int', 'unsigned long')
     if isinstance(val, Obj):
         wp.env[v['name']] = val
         if val.kind == 'stats' and wp.real:      # stats_t::m_mean of a statistics block: uninterpreted M(cell)
@@ -322,7 +334,7 @@ def mk(name, tu, flt, decl, select, setup, post, about, file, calls=CALLS_R, mem
     docs, fn = load(tu, flt, decl, select)
     if fn_of:
         fn = fn_of(fn)
-    wp = IdEnvWP(name, real=real, calls=calls, members=members, hooks=[enum_hook], invariants=invariants)
+    wp = IdEnvWP(name, real=real, calls=calls, members=members, hooks=[enum_hook, temp_hook], invariants=invariants)
     wp.decl_hooks = (obj_decl_hook,) + tuple(wp.decl_hooks)
     wp.rec = []
     keys = wp.bind_params(fn)
@@ -632,8 +644,12 @@ def c_make_file_logger(wp, n, args, callee):
 
 
 def c_function_call(wp, n, args, callee):
-    """std::function::operator(): the user callback -- recorded with its arguments; returns an opaque tuple"""
+    """std::function::operator(): the user callback -- recorded with its arguments; returns an opaque tuple.
+    A call of a local lambda is recorded with the lambda and its (literal tensor) argument"""
     f = unwrap(args[0])
+    if f.get('kind') == 'DeclRefExpr' and isinstance(wp.env.get(f['referencedDecl']['name']), Obj) and wp.env[f['referencedDecl']['name']].kind == 'lambda':
+        record(wp, 'call_lambda', name=f['referencedDecl']['name'], args=[wp.ev(a) for a in args[1:]])
+        return Obj('lambda_result')
     if f.get('kind') != 'DeclRefExpr' or f['referencedDecl']['name'] != 'callback':
         raise Unsupported(f'{wp.name}: call through {f.get("kind")}')
     k = len(wp.rec)
@@ -641,11 +657,50 @@ def c_function_call(wp, n, args, callee):
     return Obj('cbresult', call=k, parts=[Obj('cbpart', call=k, k=i) for i in range(3)])
 
 
+def temp_hook(wp, n):
+    """objects created in place: parallel::pool_t{}, result_t{spaces, folds}, tensor2d_t{rows, cols} with literal sizes"""
+    if n.get('kind') != 'CXXTemporaryObjectExpr':
+        return None
+    q = strip_cv(qual(n['type']))
+    inner = n.get('inner', [])
+    if q.endswith('pool_t') and not inner:
+        return Obj('pool')
+    if q.endswith('ml::result_t') and len(inner) == 2:
+        sp = unwrap(inner[0])
+        while sp.get('kind') in ('CXXConstructExpr', 'CallExpr') and sp.get('inner'):
+            sp = unwrap(sp['inner'][-1])
+        name = sp['referencedDecl']['name'] if sp.get('kind') == 'DeclRefExpr' else '?'
+        return Obj('result_new', folds=wp.ev(inner[1]).t, spaces=name)
+    if 'double, 2' in q and all(a.get('kind') == 'IntegerLiteral' for a in inner):
+        return Obj('tensor_lit', dims=tuple(int(a['value']) for a in inner))
+    return None
+
+
+def m_split(wp, n, args, obj):
+    return Obj('splits')
+
+
+def m_vec_size(wp, n, args, obj):
+    return wp.env[f'{vec_name(wp, obj)}.size']
+
+
+def m_spaces_empty(wp, n, args, obj):
+    if 'spaces.empty' not in wp.env:
+        wp.env['spaces.empty'] = wp.fresh('Bool', 'spaces_empty', 'bool')
+    return wp.env['spaces.empty']
+
+
+def m_optimize_call(wp, n, args, obj):
+    record(wp, 'optimize', callback=wp.ev(args[1]))
+    return Obj('steps')
+
+
 CALLS_T = CALLS_R + [(r'^make_range\|', c_make_range), (r'^make_file_logger\|', c_make_file_logger), (r'^operator\(\)\|', c_function_call)]
 MEMBERS_T = [(r'^closest_trial\|.*result_t', m_closest_trial_call), (r'^extra\|.*result_t', m_slot_call('m_extras')),
              (r'^log_path\|.*result_t', m_slot_call('m_log_paths')), (r'^store\|.*result_t', m_store_call),
              (r'^add\|.*result_t', m_add_call), (r'^map\|.*pool_t', m_map), (r'^log\|.*params_t', m_log),
-             (r'^values\|.*result_t', m_values_call)] + MEMBERS_R
+             (r'^values\|.*result_t', m_values_call), (r'^split\|.*splitter_t', m_split), (r'^size\|.*std::vector', m_vec_size),
+             (r'^empty\|.*std::vector<nano::param_space_t', m_spaces_empty), (r'^optimize\|.*tuner_t', m_optimize_call)] + MEMBERS_R
 
 
 def lambda_of(k):
@@ -760,6 +815,34 @@ def tune_vcs():
     add(mk('tune::tuner_callback', TU_T, 'nano::ml::tune', 'tune', None, setup_tuner, post_tuner,
            'one tuner evaluation = add the trials, run every (trial, fold) task, report the new values', SRC_T,
            calls=CALLS_T, members=MEMBERS_T, fn_of=lambda_of(0)))
+
+    # ---- ml::tune itself: folds, the result object, and who gets the tuner lambda
+    def setup_tune(wp, keys):
+        wp.guarded_effects = True
+        for nm in ('prefix', 'samples', 'fit_params', 'param_spaces', 'callback'):
+            wp.env[nm] = Obj('param', name=nm)
+
+    def post_tune(wp, rv):
+        out = [('folds == splits.size() (the splitter decides the number of folds)', f'(= {wp.env["folds"].t} {wp.env["splits.size"].t})'),
+               ('the result is built for exactly that many folds and starts without trials',
+                f'(and (= {wp.env["result.m_values.1"].t} {wp.env["splits.size"].t}) (= {wp.env["result.m_values.0"].t} 0))'),
+               ('the result holds the given parameter spaces', 'true' if wp.env['result']['spaces'] == 'param_spaces' else 'false'),
+               ('the result returned is the one the tasks stored into', 'true' if isinstance(rv, Obj) and rv is wp.env['result'] else 'false')]
+        e = wp.env.get('spaces.empty')
+        recs = wp.rec
+        ok = e is not None and [w for w, _ in recs] == ['optimize', 'call_lambda']
+        out.append(('with parameter spaces the tuner optimises, without any the tuner lambda is called directly', 'true' if ok else 'false'))
+        if ok:
+            o, c = recs[0][1], recs[1][1]
+            out.append(('the tuner evaluates through the tuner lambda, exactly when there is a parameter space',
+                        AND(f'(= {o["guard"]} (not {e.t}))', 'true' if isinstance(o['callback'], Obj) and o['callback'].f.get('name') == 'tuner_callback' else 'false')))
+            lit_ok = len(c['args']) == 1 and isinstance(c['args'][0], Obj) and c['args'][0].kind == 'tensor_lit' and c['args'][0]['dims'] == (1, 0)
+            out.append(('without parameter spaces exactly one trial with zero parameters is evaluated (tensor2d_t{1, 0})',
+                        AND(f'(= {c["guard"]} {e.t})', 'true' if lit_ok and c['name'] == 'tuner_callback' else 'false')))
+        return out
+    add(mk('ml::tune', TU_T, 'nano::ml::tune', 'tune', None, setup_tune, post_tune,
+           'the driver: folds from the splitter, result for those folds, evaluations only through the tuner lambda', SRC_T,
+           calls=CALLS_T, members=MEMBERS_T))
     return vcs, fns
 
 
